@@ -348,9 +348,10 @@ pub fn run_scenario(scn: &Scn, seen: &mut Seen) -> Outcome {
                 }
                 Fault::RestartFail => {
                     {
+                        // the in-place restart of this instance's service runs on its worker's thread
                         let mut g = run.ctls[0].inner.lock().unwrap();
-                        let next = g.created;
-                        g.factory_fail.push(next);
+                        let th = g.instances.get(&i).map(|x| x.thread).ok_or("victim instance unknown")?;
+                        g.factory_fail_on_thread.push(th);
                     }
                     run.ctls[0].set_script(i, &[ReadyStep::Err]);
                 }
